@@ -41,7 +41,7 @@ pub fn describe(inst: &Instance, name: &str) -> Value {
 }
 
 /// proves and verifies one instance; returns the proof when accepted
-pub fn prove_and_verify<B, H>(rep: &mut Report, inst: &Instance, name: &str, ctx: &Value) -> Option<Proof>
+pub fn prove_and_verify<B, H>(rep: &mut Report, inst: &Instance, _name: &str, ctx: &Value) -> Option<Proof>
 where
     B: BaseFut,
     H: ElementHasher<BaseField = B> + Sync + Send,
